@@ -7,7 +7,6 @@ import (
 
 	"github.com/fabiolb/fabio/route"
 	"verif/harness/hx"
-	"verif/harness/rt"
 )
 
 // c05.line — one line of text against the tokenizer model: the Go side ships what the real regexes / Parse
@@ -80,7 +79,7 @@ func genLine(r *hx.Rand, i int) interface{} {
 	var line string
 	switch r.Intn(10) {
 	case 0, 1, 2, 3, 4: // a well-formed command with white-space variation, sometimes malformed
-		ds := rt.Small.GenScript(r, 1+r.Intn(3))
+		ds := c05Small.GenScript(r, 1+r.Intn(3))
 		d := ds[len(ds)-1]
 		if r.Chance(1, 20) {
 			d.WText = r.Pick(append(append([]string{}, badWeights...), nonFinite...))
